@@ -3892,7 +3892,10 @@ static void emit_context_error(
 
     fprintf(stderr, "%s\n\n", message);
     char source_line[1024];
-    if (read_source_line(g_typecheck_current_file, line, source_line, sizeof(source_line))) {
+    /* Each context line re-reads the file up to that line: stop echoing source after the first 100 errors,
+     * otherwise a file with many errors costs errors x lines. */
+    if (g_tc_emitted_errors <= 100 &&
+        read_source_line(g_typecheck_current_file, line, source_line, sizeof(source_line))) {
         print_error_context_line(line, column, caret_len, source_line);
     }
     if (hint && hint[0] != '\0') {
